@@ -138,6 +138,18 @@ def specDump (hz : List (Nat × Nat)) (d : Dump) (quiescent : Bool) : List SpecF
       let dead := d.nodes.filter (fun n => !(C07.memb n (closure (d.cs ++ d.pit.map (·.name)))))
       [fail "quiescent-tree" (if dead.isEmpty then "missing-node" else "dead-branch") s!"the name tree holds nodes on no path to a live entry at t={d.now}: {namesSorted dead}"]))
 
+/-- "removed promptly once satisfied": after a Data packet that the forwarder accepts, every entry of
+    the implementation's dump it satisfies (token: the entry with that token; else by name) is
+    scheduled for now or earlier -/
+def specPrompt (got : String) (accepted : Bool) (matched : PitEntry → Bool) : List SpecFail :=
+  if !accepted then [] else
+  match parseDump got with
+  | some d =>
+    if satisfiedPrompt d matched then [] else
+      let bad := (d.pit.filter (fun e => matched e && (match e.sched with | some p => decide (p > d.now) | none => false))).head?
+      [fail "satisfied-prompt" "still-pending" s!"Data satisfied PIT entry {(bad.map (·.name.toText)).getD "?"} at t={d.now} but the entry is not scheduled for removal now (it stays until its lifetime ends)"]
+  | none => []
+
 def pitStep (_s : DSt) (r : St × List Send) (got : String) (quiescent : Bool) (cov : List String) (s' : DSt) : StepResult DSt :=
   let crash : List SpecFail := if isCrash got then [fail "no-panic" "thread" s!"the forwarding thread crashed: {got}"] else []
   let spec := match parseDump got with
@@ -303,14 +315,17 @@ def stepC08 (s : DSt) (op : String) (got : String) : StepResult DSt :=
         | some (some k) => if k ≥ s.m.tokNext then { st := s, expected := some "skip" } else
           let d : DataPkt := ⟨f, n, msNs (if fresh == "-" then 0 else fresh.toNat?.getD 0), tk, w⟩
           let r := procDataPkt s.m d
-          pitStep s r got false [if r.2.isEmpty then "D-tok-nomatch" else "D-tok-match"] { s with horizon := max s.horizon s.now }
+          let res := pitStep s r got false [if r.2.isEmpty then "D-tok-nomatch" else "D-tok-match"] { s with horizon := max s.horizon s.now }
+          { res with spec := res.spec ++ specPrompt got (faceExists f && !isLocalhost n) (fun e => e.tok == k) }
         | _ =>
           let d : DataPkt := ⟨f, n, msNs (if fresh == "-" then 0 else fresh.toNat?.getD 0), tk, w⟩
           let r := procDataPkt s.m d
           let nm := (prefixMatch s.m.pit n).length
           let ev := r.1.cs.cs.length < s.m.cs.cs.length + 1 && !(s.m.cs.cs.has n)
-          pitStep s r got false ([if !faceExists f then "D-bad-face" else if isLocalhost n then "D-localhost" else if tok == "S" then "D-short-token" else if tk.isSome then "D-foreign-token" else if nm == 0 then "D-unsolicited" else if nm == 1 then "D-match-one" else "D-match-many"] ++ (if ev then ["D-evict"] else []))
+          let res := pitStep s r got false ([if !faceExists f then "D-bad-face" else if isLocalhost n then "D-localhost" else if tok == "S" then "D-short-token" else if tk.isSome then "D-foreign-token" else if nm == 0 then "D-unsolicited" else if nm == 1 then "D-match-one" else "D-match-many"] ++ (if ev then ["D-evict"] else []))
             { s with horizon := max s.horizon s.now, interesting := s.interesting || ev }
+          { res with spec := res.spec ++ specPrompt got (faceExists f && !isLocalhost n && tk.isNone) (dataSatisfies n),
+                     cov := res.cov ++ (if nm ≥ 2 && ((prefixMatch s.m.pit n).any fun e => e.ins.all (fun r => r.face == f) && !e.ins.isEmpty) then ["D-many-same-face"] else []) }
     | _, _, _ => bad s
   | [a, ms] =>
     if a == "adv" || a == "quiesce" || a == "advu" then
